@@ -517,12 +517,152 @@ fn reload_case(i: usize, seed: u64, acc: &mut Acc) {
   }
 }
 
+// ------------------------------------------------------------ registry worlds
+
+/// rename the scopes and application modules of a registry world so that two
+/// worlds can be merged without sharing a package
+fn rename_reg_world(w: &crate::reg::RegWorld) -> crate::reg::RegWorld {
+  use crate::reg::Imp;
+  let rn = |s: &str| -> String {
+    s.replace("@s/", "@u/").replace("@t/", "@v/").replace("file:///main.ts", "file:///main_b.ts").replace("file:///second.ts", "file:///second_b.ts")
+  };
+  let ri = |i: &Imp| match i {
+    Imp::Static(t) => Imp::Static(rn(t)),
+    Imp::Dynamic(t) => Imp::Dynamic(rn(t)),
+    Imp::Text(t) => Imp::Text(rn(t)),
+    Imp::JsonAttr(t) => Imp::JsonAttr(rn(t)),
+  };
+  let mut o = w.clone();
+  for p in o.pkgs.iter_mut() {
+    p.name = rn(&p.name);
+    for v in p.versions.iter_mut() {
+      for f in v.files.iter_mut() {
+        f.imports = f.imports.iter().map(ri).collect();
+      }
+    }
+  }
+  o.app = o.app.iter().map(|(u, im)| (rn(u), im.iter().map(ri).collect())).collect();
+  o.roots = o.roots.iter().map(|r| rn(r)).collect();
+  o.lock_selected = o.lock_selected.iter().map(|(r, v)| (rn(r), v.clone())).collect();
+  o.excluded = o.excluded.iter().map(|e| rn(e)).collect();
+  o.cached_manifests = o.cached_manifests.iter().map(|(n, v)| (rn(n), v.clone())).collect();
+  o
+}
+
+fn packages_view(g: &mut ModuleGraph) -> Value {
+  let mappings: BTreeMap<String, String> = g.packages.mappings().iter().map(|(k, v)| (k.to_string(), v.to_string())).collect();
+  let deps: BTreeMap<String, std::collections::BTreeSet<String>> =
+    g.packages.packages_with_deps().map(|(nv, d)| (nv.to_string(), d.map(|x| x.to_string()).collect())).collect();
+  let yanked: std::collections::BTreeSet<String> = g.packages.used_yanked_packages().map(|n| n.to_string()).collect();
+  json!({"mappings": mappings, "packages_with_deps": deps, "used_yanked": yanked})
+}
+
+/// Incremental vs at-once on registry worlds whose successive builds use
+/// disjoint packages (so that version unification, which is first-come by
+/// design, cannot differ) but share npm requirements.
+fn reg_partition_case(i: usize, seed: u64, acc: &mut Acc) {
+  use crate::reg::*;
+  let mut rng = Rng::new(seed).fork(i as u64 ^ 0xC19_7);
+  let mut a = gen_reg_world(&mut rng);
+  let mut b = rename_reg_world(&gen_reg_world(&mut rng));
+  // cache-busting restarts reload every package of an at-once build, which a
+  // follow-up build cannot do: keep stale metadata out of this slice
+  a.reload_only_versions.clear();
+  b.reload_only_versions.clear();
+  a.app[0].1.retain(|i| !i.text().ends_with("@3"));
+  b.app[0].1.retain(|i| !i.text().ends_with("@3"));
+  // both groups use the same npm requirement somewhere
+  if rng.coin() {
+    a.app[0].1.push(Imp::Static("npm:chalk@5".into()));
+  }
+  let file_roots = |w: &RegWorld| -> Vec<String> { w.roots.iter().filter(|r| r.starts_with("file:")).cloned().collect() };
+  let (ra, rb) = (file_roots(&a), file_roots(&b));
+  let mut merged = a.clone();
+  merged.pkgs.extend(b.pkgs.clone());
+  merged.app.extend(b.app.clone());
+  merged.lock_selected.extend(b.lock_selected.clone());
+  merged.excluded.extend(b.excluded.clone());
+  merged.cached_manifests.extend(b.cached_manifests.clone());
+  merged.no_npm_resolver = false;
+  let kind = *rng.pick(&[GraphKind::All, GraphKind::CodeOnly]);
+  let world = merged.to_world();
+  let build = |steps: &[Vec<String>]| -> Result<ModuleGraph, PanicInfo> {
+    let loader = ScriptedLoader::new(&world);
+    let mut graph = ModuleGraph::new(kind);
+    for (req, ver) in &merged.lock_selected {
+      let r = deno_semver::package::PackageReq::from_str(req).unwrap();
+      graph.packages.add_nv(
+        r.clone(),
+        deno_semver::package::PackageNv { name: r.name.clone(), version: deno_semver::Version::parse_standard(ver).unwrap() },
+      );
+    }
+    let cfg = BuildCfg {
+      kind,
+      npm: Some(ScriptedNpmResolver::default()),
+      version_resolver: Some(merged.version_resolver()),
+      prefer_cached_jsr: merged.prefer_cached,
+      ..Default::default()
+    };
+    catch(|| {
+      for st in steps {
+        run_build(&mut graph, st, &[], &loader, &cfg, None, Exec::Inline, None);
+      }
+    })?;
+    Ok(graph)
+  };
+  let ctx = json!({"registry_worlds": [a.to_json(), b.to_json()], "kind": format!("{:?}", kind)});
+  for (first, second) in [(&ra, &rb), (&rb, &ra)] {
+    if first.is_empty() || second.is_empty() {
+      continue;
+    }
+    acc.eval();
+    let all: Vec<String> = first.iter().chain(second.iter()).cloned().collect();
+    let (mut at_once, mut incr) = match (build(&[all.clone()]), build(&[first.clone(), second.clone()])) {
+      (Ok(x), Ok(y)) => (x, y),
+      (Err(p), _) | (_, Err(p)) => {
+        acc.violation(format!("panic/{}", p.signature()), p.message, ctx.clone());
+        continue;
+      }
+    };
+    acc.count("registry_partitions_compared");
+    if !at_once.packages.mappings().is_empty() {
+      acc.nontrivial(hash64(&(ctx.to_string(), first.clone())));
+    }
+    let w = |d: Value| json!({"ctx": ctx, "first_build": first, "second_build": second, "detail": d});
+    let (va, vi) = (entry_views(&at_once), entry_views(&incr));
+    if va != vi {
+      let differing: Vec<&String> = va.keys().chain(vi.keys()).filter(|k| va.get(*k) != vi.get(*k)).collect();
+      acc.violation(
+        "registry/incremental≠at-once/entries",
+        format!("{:?}", differing.iter().take(6).collect::<Vec<_>>()),
+        w(json!({})),
+      );
+    }
+    if redirects_of(&at_once) != redirects_of(&incr) {
+      acc.violation("registry/incremental≠at-once/redirects", "", w(json!({"at_once": redirects_of(&at_once), "incremental": redirects_of(&incr)})));
+    }
+    let (pa, pi) = (packages_view(&mut at_once), packages_view(&mut incr));
+    if pa != pi {
+      let field = ["mappings", "packages_with_deps", "used_yanked"].iter().find(|f| pa[**f] != pi[**f]).copied().unwrap_or("?");
+      acc.violation(
+        format!("registry/incremental≠at-once/package-table/{}", field),
+        format!("at once {} vs incremental {}", pa[field], pi[field]).chars().take(400).collect::<String>(),
+        w(json!({})),
+      );
+    }
+    if pa["packages_with_deps"].as_object().is_some_and(|o| o.values().any(|v| v.as_array().is_some_and(|a| a.iter().any(|x| x.as_str().is_some_and(|s| s.starts_with("npm:")))))) {
+      acc.count("registry_partitions_with_npm_dependencies_of_packages");
+    }
+  }
+}
+
 pub fn run(tier: Tier, seed: u64) -> i32 {
   let mut rep = Report::new("C19", tier, seed);
   rep.rule = "two workloads on the real builder. (1) every order-preserving partition of a generated world's root list into 2-3 successive build() calls on one graph \
     vs the single-call build: entries (serialised module JSON; errors by class+message), redirects, roots; then build() again with a random subset of known roots: serialised graph unchanged and zero loader calls. \
     (2) histories of 1-4 steps: random edit script on loaded JS/TS modules (add/remove import, break/unbreak syntax, delete/restore) then reload(edited specifiers), compared with a from-scratch build of the edited sources: \
-    every entry of the from-scratch graph must be identical in the reloaded graph, its redirects present, and entries outside it unchanged. non-trivial = >= 2 builds or >= 1 effective edit; distinct by (world, partition | history)"
+    every entry of the from-scratch graph must be identical in the reloaded graph, its redirects present, and entries outside it unchanged. \
+    (3) registry worlds: two generated registry worlds over disjoint package scopes (so that first-come version unification cannot differ; no stale metadata) sharing npm requirements, built at once and in two successive builds in both orders: entries, redirects and the package table (mappings, packages_with_deps, used yanked versions) must be equal. non-trivial = >= 2 builds or >= 1 effective edit; distinct by (world, partition | history)"
     .into();
   rep.assumptions = vec![
     "error entries are compared by class and message; a referrer is only required not to be lost (the first requester may differ between histories)".into(),
@@ -536,5 +676,10 @@ pub fn run(tier: Tier, seed: u64) -> i32 {
   let n2 = tier.pick(20000, 3840000);
   let acc2 = par_run(n2, |i, acc| reload_case(i, seed, acc));
   acc.merge(acc2);
+  let n3 = tier.pick(3000, 200_000);
+  let acc3 = par_run(n3, |i, acc| reg_partition_case(i, seed, acc));
+  acc.merge(acc3);
+  rep.floor("registry_partitions_compared", tier.pick(2000, 100_000));
+  rep.floor("registry_partitions_with_npm_dependencies_of_packages", tier.pick(200, 10_000));
   rep.finish(acc)
 }
